@@ -925,6 +925,15 @@ fn prepare_bins(parent: &Path) -> Result<PathBuf, String> {
         let _ = fs::copy(bins.join(b), d.join(b));
         let _ = fs::set_permissions(d.join(b), fs::Permissions::from_mode(0o755));
     }
+    // (removable after a privilege drop, like the scratch parent itself)
+    if sys::is_root() {
+        use std::os::unix::ffi::OsStrExt;
+        if let Ok(c) = std::ffi::CString::new(d.as_os_str().as_bytes()) {
+            unsafe {
+                libc::chown(c.as_ptr(), 65534, 65534);
+            }
+        }
+    }
     // the LD_PRELOAD shim, when it could be built
     if bins.join(crate::crosscheck::SHIM).exists() {
         let _ = fs::copy(bins.join(crate::crosscheck::SHIM), d.join(crate::crosscheck::SHIM));
